@@ -695,3 +695,130 @@ Proof.
   intros g v Hin. destruct (find_caps_substrings _ _ _ _ _ E Hin) as (a & b & H1 & H2 & H3 & H4 & H5 & _).
   exists a, b. repeat split; assumption.
 Qed.
+
+(* ------------------------------------------------------------------ bytes and runes: what can be said at byte level *)
+
+Lemma non_ascii_high c : is_ascii c = false -> In c high_bytes.
+Proof.
+  revert c. assert (H : forall c, (is_ascii c || existsb (Ascii.eqb c) high_bytes) = true).
+  { apply for_all_ascii. vm_compute. reflexivity. }
+  intros c Hc. specialize (H c). rewrite Hc, orb_false_l in H. apply existsb_exists in H.
+  destruct H as (x & Hin & Heq). apply Ascii.eqb_eq in Heq. subst x. exact Hin.
+Qed.
+
+(* a class without the byte 128 that is uniform on 128..255 holds ASCII bytes only *)
+Lemma low_cls_ascii k c : cls_uniform_high k = true -> high_cls k = false -> in_cls k c = true -> is_ascii c = true.
+Proof.
+  intros Hu Hh Hin. destruct (is_ascii c) eqn:E; [reflexivity|]. exfalso.
+  apply non_ascii_high in E. unfold cls_uniform_high in Hu. apply orb_true_iff in Hu. destruct Hu as [Hu|Hu].
+  - rewrite forallb_forall in Hu. unfold high_cls in Hh.
+    assert (In (ascii_of_N 128) high_bytes) by (vm_compute; left; reflexivity).
+    rewrite (Hu _ H) in Hh. discriminate.
+  - rewrite forallb_forall in Hu. specialize (Hu _ E). rewrite Hin in Hu. discriminate.
+Qed.
+
+(* what follows a greedy star over a class with the non-ASCII bytes, in a rune-safe pattern, starts with an ASCII
+   byte or at the end of the text (or is nothing but group marks up to the end of the pattern) *)
+Lemma follow_next T r : follow_ok r = true -> classes_uniform r = true ->
+  forall q ops ls e pcs, Parse T r q ops ls e pcs ->
+  only_marks r = true \/ q = length T \/ exists c, nth_error T q = Some c /\ is_ascii c = true.
+Proof.
+  induction r as [|it r IH]; intros Hf Hu q ops ls e pcs HP.
+  - left. reflexivity.
+  - destruct it as [c|k|k|g|g| | |k]; cbn [follow_ok classes_uniform only_marks] in *; try discriminate.
+    + inversion HP; subst. right. right. exists c. split; assumption.
+    + apply andb_true_iff in Hu. destruct Hu as [Hu1 Hu2]. apply negb_true_iff in Hf.
+      inversion HP; subst. right. right. eexists. split; [eassumption|]. eapply low_cls_ascii; eassumption.
+    + inversion HP; subst. eapply IH; eassumption.
+    + inversion HP; subst. eapply IH; eassumption.
+    + inversion HP; subst. right. left. reflexivity.
+Qed.
+
+Lemma lead_info_lo n sz lo hi : lead_info n = Some (sz, lo, hi) -> (128 <= lo)%N.
+Proof.
+  unfold lead_info.
+  repeat match goal with |- context [if ?b then _ else _] => destruct b end; intros [= <- <- <-]; discriminate || (apply N.leb_le; reflexivity).
+Qed.
+
+(* the bytes of a decoding step behind its first byte are not ASCII *)
+Lemma decode_rune_cont s i b :
+  1 <= i -> i < snd (decode_rune s) -> nth_error s i = Some b -> is_ascii b = false.
+Proof.
+  unfold decode_rune, is_ascii, nb, is_cont.
+  destruct s as [|b0 r1]; [cbn; lia|].
+  destruct (N_of_ascii b0 <? 128)%N; [cbn; lia|].
+  destruct (lead_info (N_of_ascii b0)) as [[[sz lo] hi]|] eqn:EL; [|cbn; lia].
+  apply lead_info_lo in EL.
+  destruct r1 as [|b1 r2]; [cbn; lia|].
+  destruct ((N_of_ascii b1 <? lo)%N || (hi <? N_of_ascii b1)%N) eqn:E1; [cbn; lia|].
+  apply orb_false_iff in E1. destruct E1 as [E1 _]. apply N.ltb_ge in E1.
+  assert (A1 : (N_of_ascii b1 <? 128)%N = false) by (apply N.ltb_ge; lia).
+  destruct (sz <=? 2).
+  { cbn [snd]. intros H1 H2 H3. assert (i = 1) by lia. subst i. cbn in H3. injection H3 as <-. exact A1. }
+  destruct r2 as [|b2 r3]; [cbn; lia|].
+  destruct ((128 <=? N_of_ascii b2)%N && (N_of_ascii b2 <=? 191)%N) eqn:E2; cbn [negb]; [|cbn; lia].
+  apply andb_true_iff in E2. destruct E2 as [E2 _]. apply N.leb_le in E2.
+  assert (A2 : (N_of_ascii b2 <? 128)%N = false) by (apply N.ltb_ge; lia).
+  destruct (sz <=? 3).
+  { cbn [snd]. intros H1 H2 H3. destruct i as [|[|[|i]]]; try lia; cbn in H3; injection H3 as <-; assumption. }
+  destruct r3 as [|b3 r4]; [cbn; lia|].
+  destruct ((128 <=? N_of_ascii b3)%N && (N_of_ascii b3 <=? 191)%N) eqn:E3; cbn [negb]; [|cbn; lia].
+  apply andb_true_iff in E3. destruct E3 as [E3 _]. apply N.leb_le in E3.
+  assert (A3 : (N_of_ascii b3 <? 128)%N = false) by (apply N.ltb_ge; lia).
+  cbn [snd]. intros H1 H2 H3. destruct i as [|[|[|[|i]]]]; try lia; cbn in H3; injection H3 as <-; assumption.
+Qed.
+
+Lemma nth_error_skipn {A} (T : list A) : forall p i, nth_error (skipn p T) i = nth_error T (p + i).
+Proof.
+  induction T as [|x T IH]; intros p i.
+  - rewrite skipn_nil. destruct i, p; reflexivity.
+  - destruct p as [|p]; [reflexivity|]. cbn [skipn Nat.add nth_error]. apply IH.
+Qed.
+
+(* THE BYTE-LEVEL FACT: in any byte string (valid UTF-8 or not) the offset of an ASCII byte, and the end of the
+   text, are rune boundaries of Go's decoding loop *)
+Theorem ascii_offset_is_boundary T q :
+  q = length T \/ (exists c, nth_error T q = Some c /\ is_ascii c = true) -> Boundary T q.
+Proof.
+  intros Hq. assert (Hle : q <= length T).
+  { destruct Hq as [->|(c & Hc & _)]; [lia|]. apply nth_lt in Hc. lia. }
+  assert (W : forall n p, Boundary T p -> p <= q -> q - p <= n -> Boundary T q).
+  { induction n as [|n IH]; intros p Hb Hp Hn.
+    - assert (p = q) by lia. subst p. exact Hb.
+    - destruct (Nat.eq_dec p q) as [->|Hne]; [exact Hb|].
+      assert (Hlt : p < length T) by lia.
+      destruct (nth_error T p) as [c0|] eqn:Ec; [|apply nth_error_None in Ec; lia].
+      destruct (rune_step _ _ _ Ec) as (W1 & W2 & W3).
+      set (w := snd (decode_rune (skipn p T))) in *.
+      assert (Hw : p + w <= q).
+      { destruct (le_lt_dec (p + w) q) as [Hok|Hbad]; [exact Hok|]. exfalso.
+        destruct Hq as [->|(c & Hc & Ha)]; [lia|].
+        assert (Hi : nth_error (skipn p T) (q - p) = Some c).
+        { rewrite nth_error_skipn. replace (p + (q - p)) with q by lia. exact Hc. }
+        pose proof (decode_rune_cont (skipn p T) (q - p) c ltac:(lia) ltac:(fold w; lia) Hi) as Hna.
+        rewrite Ha in Hna. discriminate. }
+      apply (IH (p + w)); [apply B_step; assumption|exact Hw|lia]. }
+  apply (W q 0); [constructor|lia|lia].
+Qed.
+
+(* consequence for parses: in a rune-safe position a greedy star over a class with the non-ASCII bytes ends at a
+   rune boundary; an IRune item consumes exactly one decoding step *)
+Theorem star_ends_at_boundary T k r p ops n ls e pcs :
+  Parse T (IStar k :: r) p ops (n :: ls) e pcs ->
+  follow_ok r = true -> classes_uniform r = true -> only_marks r = false -> Boundary T (p + n).
+Proof.
+  intros HP Hf Hu Hm. inversion HP; subst.
+  match goal with Hr : Parse T r (p + n) ops ls e pcs |- _ => destruct (follow_next T r Hf Hu _ _ _ _ _ Hr) as [Hx|Hx] end.
+  - congruence.
+  - apply ascii_offset_is_boundary. exact Hx.
+Qed.
+
+Theorem rune_item_is_one_step T k r p ops ls e pcs :
+  Parse T (IRune k :: r) p ops ls e pcs -> Boundary T p ->
+  exists c, nth_error T p = Some c /\ in_cls k c = true /\
+            Boundary T (p + snd (decode_rune (skipn p T))) /\
+            Parse T r (p + snd (decode_rune (skipn p T))) ops ls e pcs.
+Proof.
+  intros HP Hb. inversion HP; subst. eexists. split; [eassumption|]. split; [assumption|]. split; [|assumption].
+  apply B_step; [exact Hb|]. eapply nth_lt. eassumption.
+Qed.
